@@ -302,7 +302,7 @@ func init() {
 		MinNontrivial: 300,
 		Rule: "case k: parser options = the (k mod 8)-th subset of {PassDoubleDash, PassAfterNonOption, IgnoreUnknown} (HelpFlag on in half), a random declaration with 0-3 positionals (with/without trailing slice), 0-2 command levels and Commander nodes. Two of three cases are intent-rendered vectors (options, clusters, positionals, command words, the terminator followed by hostile raw tokens, unknown options under IgnoreUnknown) whose exact remaining arguments are known by construction; every third case is an arbitrary hostile vector checked by the model-free conservation monitor (returned list is an order-preserving subsequence of the input; Execute saw the same list; string positionals hold input tokens). " +
 			"Non-trivial = successful parse judged by one of the two oracles; distinct = (mode, option subset, features used, #rest, positional layout, depth).",
-		Assumptions: []string{"no UnknownOptionHandler installed (its contract is C07)", "a cluster containing an unknown rune is not generated in intent mode (side effects of its known members are unspecified)"},
+		Assumptions: []string{"an UnknownOptionHandler is installed only together with IgnoreUnknown (where it must never be asked); its own contract is C07", "a cluster containing an unknown rune is not generated in intent mode (side effects of its known members are unspecified)"},
 		Technique:   "runtime conservation monitor (model-free subsequence/invention check on hostile vectors) + exact token accounting against an intent denotation; metamorphic history monitor ([use, change of the public model, use] on one parser vs. a fresh parser of the changed declaration)",
 		LevelText:   "Exploration: all 8 pass-through option combinations at every seed, exact accounting of every token on intent vectors and a sound model-free subsequence monitor on hostile vectors.",
 		LevelNote:   "Trusted: the intent walker's accounting of which tokens are consumed; the subsequence check is independent of any model.",
